@@ -499,7 +499,9 @@ def instances(tier):       # noqa: F811
     from .common import lemma_instance
     return _inst_before_lemmas(tier) + [lemma_instance('C11', 'mvdr', 'lemma:mvdr-optimality-from-the-normal-equation'),
                                          lemma_instance('C11', 'beam', 'lemma:lcmv-constraints-mvdr-normal-equation-souden-rank-one-for-every-D',
-                                                        ['lcmv_constraints', 'mvdr_constraint', 'souden_rank_one', 'souden_is_scaled_mvdr'])]
+                                                        ['lcmv_constraints', 'mvdr_constraint', 'souden_rank_one', 'souden_is_scaled_mvdr']),
+                                         lemma_instance('C11', 'cacgmm', 'lemma:wmwf-is-the-minimiser-of-the-weighted-wiener-cost-for-every-D',
+                                                        ['quadratic_minimiser', 'wmwf_cost_expand', 'wmwf_minimiser'])]
 
 
 # ----------------------------------------------------------------------------- bounded: all shapes of the quantifier against
